@@ -91,7 +91,7 @@ class A(Adapter):
     # ---- C06 -------------------------------------------------------------------------------------
     def constraints(self, hist, env, cfg):
         s, s0 = hist[-1].state, hist[0].state
-        B = float(cfg["b"])
+        B = float(s0.remaining_budget)  # the instance's own budget (a user generator may hand out less than the nominal one)
         w = np.asarray(s.weights).astype(np.float64)
         packed = np.asarray(s.packed_items).astype(bool)
         if np.asarray(s.weights).tobytes() != np.asarray(s0.weights).tobytes() or np.asarray(s.values).tobytes() != np.asarray(s0.values).tobytes():
